@@ -177,9 +177,11 @@ class EvolveStateVector(torch.autograd.Function):
         def op(x: torch.Tensor) -> torch.Tensor:
             return -1j * dt * (ham * x)
 
+        # krylov_exp normalises its input in place: work on a copy, the caller's
+        # state may be part of an autograd graph (observables of the previous step)
         res = krylov_exp(
             op,
-            state,
+            state.clone(),
             norm_tolerance=krylov_tolerance,
             exp_tolerance=krylov_tolerance,
             is_hermitian=True,
@@ -306,6 +308,21 @@ class EvolveStateVector(torch.autograd.Function):
         tolerance = ctx.tolerance
         nqubits = len(omegas)
 
+        if not torch.any(grad_state_out):
+            # zero upstream gradient: every gradient is zero (the Lanczos
+            # decomposition below cannot start from a zero vector)
+            needs = ctx.needs_input_grad
+            return (
+                None,
+                torch.zeros_like(omegas) if needs[1] else None,
+                torch.zeros_like(deltas) if needs[2] else None,
+                torch.zeros_like(phis) if needs[3] else None,
+                torch.zeros_like(interaction_matrix) if needs[4] else None,
+                torch.zeros_like(state) if needs[5] else None,
+                None,
+                None,
+            )
+
         grad_omegas, grad_deltas, grad_phis = None, None, None
         grad_int_mat = None
         grad_state_in = None
@@ -370,7 +387,9 @@ class EvolveStateVector(torch.autograd.Function):
             def op(x: torch.Tensor):
                 return (1j * dt) * (ham * x)
 
-            grad_state_in = krylov_exp(op, grad_state_out.detach(), tolerance, tolerance)
+            grad_state_in = krylov_exp(
+                op, grad_state_out.detach().clone(), tolerance, tolerance
+            )
 
         return (
             None,
